@@ -82,7 +82,16 @@ Definition ocont_eqb (a b : option (Z * Z)) : bool :=
 
 (** ** Model side *)
 
-Definition free (ed : bool) : hyps := mkHyps false false ed.
+(* DEFECT C04_1 (known finding KF-C04-1): cache.Target.GnmiUpdate holds no lock between the
+   tree write and the feed callback, so writes of two goroutines on one target overlap and
+   the model side must allow it ([h_owt = false]).  Once fixes/C04_1_target_write_lock.diff
+   is in, set [fixed_C04_1 := true]: the model side then runs with [h_owt = true] (a write
+   is enabled only when no other writer has announcements pending on the target), and the
+   harness must be run with VERIF_C04_FIXED_1=1 (a writer waiting for the target's write
+   lock counts as blocked). *)
+Definition fixed_C04_1 : bool := false.
+
+Definition free (ed : bool) : hyps := mkHyps fixed_C04_1 false ed.
 
 Fixpoint run_labels (h : hyps) (st : state) (ls : list label) : option state :=
   match ls with
